@@ -497,6 +497,7 @@ fn miri_scenario(prop: &str) -> Option<&'static str> {
         "C02" => Some("value_refs"),
         "C06" => Some("concurrent_removes"),
         "C08" => Some("value_lifecycle"),
+        "C09" => Some("vetoed_update"),
         "C17" => Some("metrics_many_threads"),
         "C18" => Some("first_use_hashing"),
         _ => None,
@@ -527,9 +528,11 @@ fn miri_stage(prop: &str, tier: &str, seed: u64) -> (serde_json::Value, usize) {
     let n: u64 = std::env::var("DST_MIRI_SEEDS").ok().and_then(|s| s.parse().ok()).unwrap_or(match (tier, scenario) {
         ("thorough", "metrics_many_threads") => 96, // 27 threads: ~15 s per seed
         ("thorough", "concurrent_removes") => 64,
+        ("thorough", "vetoed_update") => 64,
         ("thorough", _) => 256,
         (_, "metrics_many_threads") => 16,
         (_, "value_refs") => 64,
+        (_, "vetoed_update") => 8, // one client thread, the workers only apply its items
         _ => 32,
     });
     let from = (seed % 1000) * 1000;
